@@ -122,19 +122,22 @@ inductive GStep where
   | fail
   deriving Repr, DecidableEq
 
+/-- The `'['` arm; `q` is the pattern after the bracket. -/
+def classStep (q : List Nat) (c : Nat) : GStep :=
+  match splitClose q with
+  | none => .fail                                  -- no ']' : the arm does nothing
+  | some (cls, rest) =>
+    let negate := cls.head? == some 94              -- `p_idx + 1 < class_end && pattern_chars[p_idx+1] == '^'`
+    let body := if negate then cls.tail else cls
+    if classMatch c body != negate then .adv rest else .fail
+
 def globStep (p : List Nat) (c : Nat) : GStep :=
   match p with
   | [] => .fail                                    -- `p_idx < pattern_chars.len()` is false
   | x :: p' =>
     if x = 63 then .adv p'                         -- '?'
     else if x = 42 then .star p'                   -- '*'
-    else if x = 91 then                            -- '['
-      match splitClose p' with
-      | none => .fail                              -- no ']' : the `[` arm does nothing
-      | some (cls, rest) =>
-        let negate := cls.head? == some 94          -- `p_idx + 1 < class_end && pattern_chars[p_idx+1] == '^'`
-        let body := if negate then cls.tail else cls
-        if classMatch c body != negate then .adv rest else .fail
+    else if x = 91 then classStep p' c             -- '['
     else if x = 92 then                            -- '\\'
       match p' with
       | y :: p'' => if y = c then .adv p'' else .fail      -- guard `p_idx + 1 < len` holds
@@ -187,38 +190,44 @@ inductive Tok where
   | cls (neg : Bool) (items : List (Nat × Nat))
   deriving Repr, DecidableEq
 
-/-- Tokenizer state: outside a class, or inside one (`first`: nothing read yet, so `^` negates). -/
+/-- Tokenizer state: outside a class; after a `\\` outside a class; inside a class (`first`:
+    nothing read yet, so `^` negates); inside a class after a character `lo` that may start a
+    range; inside a class after `lo-`. -/
 inductive TState where
   | out
+  | esc
   | cls (first neg : Bool) (acc : List (Nat × Nat))
+  | clsLo (neg : Bool) (acc : List (Nat × Nat)) (lo : Nat)
+  | clsDash (neg : Bool) (acc : List (Nat × Nat)) (lo : Nat)
   deriving Repr, DecidableEq
 
-/-- Cut a pattern into tokens; `none` outside the agreed fragment. -/
+/-- Cut a pattern into tokens, one character at a time; `none` outside the agreed fragment. -/
 def tokenizeAux : TState → List Nat → Option (List Tok)
   | .out, [] => some []
-  | .out, [x] =>
-    if x = 42 then some [Tok.star] else if x = 63 then some [Tok.any]
-    else if x = 91 then none else some [Tok.lit x]        -- a trailing `\` is a literal backslash
-  | .out, x :: r@(y :: r') =>
+  | .out, x :: r =>
     if x = 42 then (tokenizeAux .out r).map (Tok.star :: ·)
     else if x = 63 then (tokenizeAux .out r).map (Tok.any :: ·)
-    else if x = 92 then (tokenizeAux .out r').map (Tok.lit y :: ·)
+    else if x = 92 then tokenizeAux .esc r
     else if x = 91 then tokenizeAux (.cls true false []) r
     else (tokenizeAux .out r).map (Tok.lit x :: ·)
+  | .esc, [] => some [Tok.lit 92]                        -- a trailing `\\` is a literal backslash
+  | .esc, y :: r => (tokenizeAux .out r).map (Tok.lit y :: ·)
   | .cls _ _ _, [] => none                               -- unclosed class
-  | .cls first neg acc, x :: r@(d :: hi :: r') =>
-    if first ∧ x = 94 then tokenizeAux (.cls false true []) r
-    else if x = 93 then (tokenizeAux .out r).map (Tok.cls neg acc.reverse :: ·)
-    else if x = 92 then none                             -- `\` inside a class
-    else if d = 45 then
-      (if hi = 93 ∨ hi = 92 ∨ hi < x then none           -- `[a-]`, `[a-\`, reversed range
-       else tokenizeAux (.cls false neg ((x, hi) :: acc)) r')
-    else tokenizeAux (.cls false neg ((x, x) :: acc)) r
   | .cls first neg acc, x :: r =>
     if first ∧ x = 94 then tokenizeAux (.cls false true []) r
     else if x = 93 then (tokenizeAux .out r).map (Tok.cls neg acc.reverse :: ·)
+    else if x = 92 then none                             -- `\\` inside a class
+    else tokenizeAux (.clsLo neg acc x) r
+  | .clsLo _ _ _, [] => none
+  | .clsLo neg acc lo, x :: r =>
+    if x = 45 then tokenizeAux (.clsDash neg acc lo) r
+    else if x = 93 then (tokenizeAux .out r).map (Tok.cls neg ((lo, lo) :: acc).reverse :: ·)
     else if x = 92 then none
-    else tokenizeAux (.cls false neg ((x, x) :: acc)) r
+    else tokenizeAux (.clsLo neg ((lo, lo) :: acc) x) r
+  | .clsDash _ _ _, [] => none
+  | .clsDash neg acc lo, hi :: r =>
+    if hi = 93 ∨ hi = 92 ∨ hi < lo then none             -- `[a-]`, `[a-\\`, reversed range
+    else tokenizeAux (.cls false neg ((lo, hi) :: acc)) r
 
 def tokenize (p : List Nat) : Option (List Tok) := tokenizeAux .out p
 
